@@ -290,6 +290,24 @@ Theorem C07_list_plan :
 Proof. exact list_plan_cases. Qed.
 Print Assumptions C07_list_plan.
 
+(* HISTORIES on one connection: the plan of a list() call is a function of that call alone (its raw_command and
+   whether ITS MLSD was answered 50x) — whatever was called, and whatever was refused, earlier on the connection.
+   In particular after any history a default / forced-MLSD listing whose MLSD is accepted is read as MLSD
+   (C07_client_mlsd_exact: second-exact UTC times), never through the LIST fallback. *)
+Theorem C07_list_plan_history_independent : forall h raw b,
+  list_plans (h ++ [(raw, b)]) = list_plans h ++ [list_plan_of raw b].
+Proof. exact list_plan_history_independent. Qed.
+Print Assumptions C07_list_plan_history_independent.
+
+Theorem C07_list_plan_after_any_history : forall h raw,
+  last (list_plans (h ++ [(raw, false)])) RaiseStatus = (if raw =? 2 then UseLIST else UseMLSD).
+Proof. exact list_plan_after_any_history. Qed.
+Print Assumptions C07_list_plan_after_any_history.
+
+Example C07_list_plan_history_witness :   (* refused before login (50x), then accepted: MLSD *)
+  list_plans [(0, true); (0, false)] = [UseLIST; UseMLSD].
+Proof. reflexivity. Qed.
+
 (* the LIST fallback tells the same type and size as MLSD (and the link count and permission bits
    of the backend) for every entry of a backend whose is_file/is_dir agree with st_mode *)
 Theorem C07_list_agrees_with_mlsd : forall st kind modify,
